@@ -104,6 +104,8 @@ pub mod slab_router;
 pub mod snapshot;
 pub mod sparse_vector;
 pub mod tiered;
+#[cfg(neumann_verif)]
+pub mod verif_hook;
 pub mod voronoi;
 pub mod wal;
 
@@ -1221,6 +1223,8 @@ impl TensorStore {
         let mut file = File::create(&temp_path)?;
         file.write_all(&bytes)?;
 
+        #[cfg(neumann_verif)]
+        crate::verif_hook::point("snapshot.before_rename");
         std::fs::rename(&temp_path, path)?;
 
         Ok(())
